@@ -2,8 +2,10 @@ package main
 
 import (
 	"encoding/json"
+	"errors"
 	"fmt"
 	"math/rand"
+	"os"
 	"runtime"
 	"sort"
 	"strings"
@@ -34,6 +36,27 @@ type cworld struct {
 	viol   []*Violation
 	seed   int64
 	idx    int
+	// failing host (as in the sequential world): one callback call in faultRate fails while it is > 0
+	faultRate int
+	frng      *rand.Rand
+	bounced   map[string]bool
+	faults    int
+}
+
+// hostFails is called with w.mu held
+func (w *cworld) hostFails(players []string, what string) bool {
+	if w.faultRate == 0 || w.frng.Intn(w.faultRate) != 0 {
+		return false
+	}
+	w.faults++
+	if w.bounced == nil {
+		w.bounced = map[string]bool{}
+	}
+	for _, p := range players {
+		w.bounced[p] = true
+	}
+	w.log("%s-fails(%d)", what, len(players))
+	return true
 }
 
 func (w *cworld) log(f string, a ...interface{}) {
@@ -53,6 +76,7 @@ func (w *cworld) fail(prop, rule, msg string) {
 // give is called with w.mu held
 func (w *cworld) give(id string, players []string, when string) {
 	for _, p := range players {
+		delete(w.bounced, p)
 		if !w.alive[p] {
 			w.fail("C09", "C09/handed-out-eliminated-or-unknown", fmt.Sprintf("player %s handed to %s (%s) but is not a live registered player", p, id, when))
 		}
@@ -74,6 +98,14 @@ func newCWorld(max, min int, seed int64, idx int) *cworld {
 	w.r = reg.NewRegulator(reg.MaxPlayersPerTable(max), reg.MinInitialPlayers(min),
 		reg.WithRequestTableFn(func(players []string) (string, error) {
 			w.mu.Lock()
+			if len(players) > w.max {
+				w.fail("C19", "C19/opened-above-capacity", fmt.Sprintf("a table was requested for %d players, capacity %d", len(players), w.max))
+			}
+			if w.hostFails(players, "open") {
+				w.mu.Unlock()
+				pause()
+				return "", errors.New("host: no table can be opened now")
+			}
 			w.nextT++
 			id := fmt.Sprintf("t%d", w.nextT)
 			w.tables[id] = nil
@@ -89,6 +121,11 @@ func newCWorld(max, min int, seed int64, idx int) *cworld {
 				w.fail("C09", "C09/assign-to-unknown-table", fmt.Sprintf("players %v assigned to table %s which does not exist", players, id))
 				w.mu.Unlock()
 				return nil
+			}
+			if w.hostFails(players, "assign") {
+				w.mu.Unlock()
+				pause()
+				return errors.New("host: table " + id + " cannot take players now")
 			}
 			w.log("assign(%s,%d)", id, len(players))
 			w.give(id, players, "assign")
@@ -263,6 +300,9 @@ func (w *cworld) checkQuiescent(rep *Report) {
 		if w.where[p] != "" {
 			places++
 		}
+		if places == 0 && w.bounced[p] && inq[p] == 0 {
+			continue // named in a callback the host failed: known to the host, not lost silently
+		}
 		if places == 0 {
 			w.fail("C09", "C09/player-dropped", fmt.Sprintf("after concurrent registrations and syncs, live player %s is neither waiting nor at a table", p))
 		}
@@ -307,6 +347,13 @@ func runCWorld(seed int64, stream int64, idx int, rep *Report) {
 	w.r.SetStatus(reg.CompetitionStatus_Normal)
 	var wg sync.WaitGroup
 	G := 3 + r.Intn(5)
+	if r.Intn(3) == 0 {
+		// one concurrent tournament in three has a host that fails during the concurrent phase
+		w.mu.Lock()
+		w.frng = caseRand(seed, stream*977+5, idx)
+		w.faultRate = 3 + r.Intn(7)
+		w.mu.Unlock()
+	}
 	for g := 0; g < G; g++ {
 		wg.Add(1)
 		gr := caseRand(seed, stream*131+int64(g), idx)
@@ -329,6 +376,13 @@ func runCWorld(seed int64, stream int64, idx int, rep *Report) {
 		}(g, gr)
 	}
 	wg.Wait()
+	w.mu.Lock()
+	w.faultRate = 0 // the host stops failing: the ledger and the settling sweeps look at what the faults left behind
+	if w.faults > 0 {
+		rep.Inc("concurrent_tournaments_with_host_faults")
+		rep.Add("concurrent_host_faults_injected", int64(w.faults))
+	}
+	w.mu.Unlock()
 	w.checkQuiescent(rep)
 	w.settle(r, rep)
 	rep.Inc("concurrent_tournaments")
@@ -345,6 +399,12 @@ func runCWorld(seed int64, stream int64, idx int, rep *Report) {
 }
 
 func cworldBatch(seed int64, stream int64, n int, rep *Report, parallel int) {
+	// (the regulator prints a line on standard output for every failed hand-over)
+	stdout := os.Stdout
+	if dn, err := os.OpenFile(os.DevNull, os.O_WRONLY, 0); err == nil {
+		os.Stdout = dn
+		defer func() { os.Stdout = stdout; dn.Close() }()
+	}
 	var wg sync.WaitGroup
 	var next int64 = -1
 	for p := 0; p < parallel; p++ {
